@@ -44,6 +44,16 @@ def m_oncelock_get(ex, site, a):
     return none() if o.fields[0] is None else some(Ptr(p.cell, p.path + (0,)))
 
 
+class ByteMatch:
+    """a match on decoded text, reporting byte offsets"""
+    def __init__(s, m, offs): s.m = m; s.offs = offs
+    def span(s, i=0):
+        a, b = s.m.span(i)
+        return (-1, -1) if a < 0 else (s.offs[a], s.offs[b])
+    def start(s): return s.span(0)[0]
+    def end(s): return s.span(0)[1]
+
+
 class Caps(HostObj):
     host_type = 'Captures'
 
@@ -76,7 +86,15 @@ def m_replace_all(ex, site, a):
         ex.side['regex_no_dollar'] = True
         return Agg('Cow', 0, [hs])
     text = bytes(items)
-    ms = list(re.finditer(pat.encode('utf-8'), text))
+    # the regex crate matches on `str` with Unicode-aware classes (\w, \d, \s, case folding): match on the decoded text and
+    # convert character offsets back to byte offsets
+    try:
+        ustr = text.decode('utf-8')
+    except UnicodeDecodeError:
+        raise Unsupported('regex on text that is not valid UTF-8')
+    offs = [0]
+    for ch in ustr: offs.append(offs[-1] + len(ch.encode('utf-8')))
+    ms = [ByteMatch(m, offs) for m in re.finditer(pat, ustr)]
     if not ms: return Agg('Cow', 0, [hs])
     dst = string_of([]); dcell = Cell(dst)
     repv = deref(ex, rep)
